@@ -27,6 +27,7 @@ impl Graveyard {
         &mut self,
         mut tracker: Tracker,
         subscriptions: HashSet<String>,
+        subscription_ids: HashMap<String, usize>,
         metrics: ConnectionEvents,
         unacked_pubrels: VecDeque<u16>,
     ) {
@@ -36,6 +37,7 @@ impl Graveyard {
         let session_state = SessionState {
             tracker,
             subscriptions,
+            subscription_ids,
             unacked_pubrels,
         };
 
@@ -70,6 +72,8 @@ pub struct SavedState {
 pub struct SessionState {
     pub tracker: Tracker,
     pub subscriptions: HashSet<String>,
+    /// subscription identifiers (MQTT 5) of those subscriptions
+    pub subscription_ids: HashMap<String, usize>,
     // used for pubrel in qos2
     pub unacked_pubrels: VecDeque<u16>,
 }
